@@ -56,7 +56,7 @@ class Site:
 
 class Effects:
     def __init__(self, repo: Repo, max_depth: int = 4,
-                 dynamic: Optional[Callable[[Module, ast.Call], Optional[List[Tuple[Module, str, ast.FunctionDef]]]]] = None,
+                 dynamic: Optional[Callable[[Module, ast.Call, ast.AST], Optional[List[Tuple[Module, str, ast.FunctionDef]]]]] = None,
                  mode: str = "contents"):
         """mode 'contents': field-insensitive aliasing through containers (conservative, for small self-contained modules);
         mode 'paths': only access paths rooted at a parameter (subscripts/attributes/element iteration/resolved callees) — no flow
@@ -201,7 +201,7 @@ class Effects:
                 if r and isinstance(r[2], FuncT):
                     targets.append(r)  # type: ignore[arg-type]
                 elif self.dynamic:
-                    dyn = self.dynamic(mod, n)
+                    dyn = self.dynamic(mod, n, fn)
                     if dyn:
                         targets.extend(dyn)  # type: ignore[arg-type]
                 for (cm, cq, cfn) in targets:
